@@ -2,7 +2,7 @@
 """Regenerates MANIFEST.json from the table below (kept in one place so the manifest stays valid)."""
 import json, subprocess
 
-HOOK_COMMITS = ["e6a50de"]
+HOOK_COMMITS = ["e6a50de", "e2955a6"]
 
 CHECKS = {
  "C01": dict(level="exploration", technique="property-based testing (proptest): generated documents and spellings, independent-reader oracle per target format, plus enumerated scalar/int/float/depth sweeps",
@@ -53,6 +53,12 @@ CHECKS = {
  "C16": dict(level="fault_enumeration", technique="fault enumeration through the real binaries: consumer closes the stdout pipe after k bytes for drawn k over several pipe capacities (4 KiB and 64 KiB pipes), and stdout on /dev/full; inputs sized from the library's output so the outcome is decided by construction",
    text="The harness is the pipe consumer, so it owns the closing point; wait status must be SIGPIPE with empty stderr for every closing point, target, input route and per-input output size (which decides whether write, write_all or flush meets the error); /dev/full must give exit 1 and an error line.",
    note="Linux pipe semantics assumed.", ref="4 C16"),
+ "C17": dict(level="exploration", engine="xtv-asan", technique="property-based testing (proptest) of the YAML path inside a nightly AddressSanitizer build of the harness, with contract-keeping, failing and over-reporting readers and early parser drops; per-case leak oracle via a counting global allocator; Miri sample in the thorough tier",
+   text="The generated cases execute under AddressSanitizer, so out-of-bounds accesses, use-after-free and double frees on any executed path abort the worker and are attributed to the traced case; leaks are decided per case by the heap level returning to its entry value (libyaml allocates through the same global allocator). Uninitialised reads are outside ASan's reach and are only sampled under Miri in the thorough tier.",
+   note="Sees executed paths only. Known finding K9: a panic provoked by an over-reporting reader unwinds through libyaml and leaks the token under construction.", ref="4 C17"),
+ "C18": dict(level="exploration", technique="exhaustive enumeration of depth windows around measured limits for every shape/target/mode/named-or-detected combination, in-process (crash-isolated) and through the debug and release binaries; far-beyond depths up to 10^6",
+   text="The limit of each source format is measured on a baseline and every other combination of shape, target, supply mode and detection must agree with it at every depth of the window (and at every depth from 1 in the thorough scan); MessagePack's limit must be exactly 1023; the real binaries must exit 0/1 (never a signal) at window and far-beyond depths from a file and from stdin.",
+   note="Depth is counted in collections around a scalar (TOML: root table included, inline below). YAML deeper than 20,000 uses block sequences because libyaml is quadratic in flow depth.", ref="4 C18"),
 }
 
 PENDING = {}
@@ -87,7 +93,8 @@ def main():
             "add_only": True,
         },
         "engines": [
-            {"name": "xtv", "path": "/verif/harness", "serves_properties": sorted(CHECKS), "kind_free_text": "Rust harness (proptest TestRunner + bounded enumerators), crash-isolated worker processes, independent readers/writers, replay files"},
+            {"name": "xtv", "path": "/verif/harness", "serves_properties": sorted(p for p in CHECKS if p != "C17"), "kind_free_text": "Rust harness (proptest TestRunner + bounded enumerators), crash-isolated worker processes, independent readers/writers, reference CLI model, replay files"},
+            {"name": "xtv-asan", "path": "/verif/harness", "serves_properties": ["C17"], "kind_free_text": "the same harness built with nightly -Zsanitizer=address (cargo feature 'asan'); cargo +nightly miri for the thorough sample"},
         ],
         "checks": checks,
         "not_applicable": na,
